@@ -5,13 +5,51 @@
 //   a generator restored from a restart file has the same state and continues identically
 //   (the old object is kept as a shadow and drawn in lock step until the next seed/restore),
 //   seed 0 gives the stream of seed 1 (a shadow RandomGenerator(1) is drawn in lock step),
-//   two different seeds give different values within the first 24 draws ("differ a b").
+//   two different seeds give different values within the first 24 draws ("differ a b"),
+//   every draw equals the textbook RANLUX value (RefRanlux below: plain 64 bit integer
+//   subtract-with-borrow, base 2^48, lags 12/5, luxury 397, seeded from the 31 bit shift
+//   register b(n) = b(n-31) xor b(n-13); written from the specification, not from the code).
 #include "common.hpp"
 #include <fstream>
 #include <unistd.h>
 #define private public
 #include "RandomGenerator.hpp"
 #undef private
+
+struct RefRanlux {
+  int64_t x[12];
+  int64_t c;
+  int p;         // position of the oldest value of the window
+  int delivered; // values of the current window already returned
+  void seed(long long s) {
+    if (s == 0) s = 1;
+    const uint32_t i = (uint32_t)(s & 0x7FFFFFFF);
+    std::vector< int > b(31 + 12 * 48);
+    for (int n = 0; n < 31; ++n) b[n] = (i >> n) & 1;
+    for (size_t n = 31; n < b.size(); ++n) b[n] = b[n - 31] ^ b[n - 13];
+    for (int k = 0; k < 12; ++k) {
+      int64_t w = 0;
+      for (int m = 0; m < 48; ++m) w = 2 * w + (1 - b[48 * k + m]);
+      x[k] = w;
+    }
+    c = 0;
+    p = 0;
+    delivered = 12;
+  }
+  void step() {
+    const int64_t d = x[(p + 7) % 12] - x[p] - c;
+    if (d < 0) { x[p] = d + (int64_t(1) << 48); c = 1; } else { x[p] = d; c = 0; }
+    p = (p + 1) % 12;
+  }
+  double next() {
+    if (delivered == 12) {
+      for (int k = 0; k < 397; ++k) step();
+      delivered = 0;
+    }
+    const int64_t v = x[(p + delivered++) % 12];
+    return std::ldexp((double)v, -48);
+  }
+};
 
 static std::string show_state(const RandomGenerator &g) {
   std::ostringstream o;
@@ -30,6 +68,8 @@ static bool same_state(const RandomGenerator &a, const RandomGenerator &b) {
 int main() {
   RandomGenerator *g = new RandomGenerator(42);
   RandomGenerator *shadow = nullptr; // must produce the same values as g
+  RefRanlux ref;
+  ref.seed(42);
   const char *shadow_what = "";
   std::string line;
   uint64_t lineno = 0;
@@ -40,6 +80,7 @@ int main() {
     if (w.size() == 2 && w[0] == "seed") {
       const long long n = std::strtoll(w[1].c_str(), nullptr, 10);
       g->set_seed(n);
+      ref.seed(n);
       delete shadow;
       shadow = nullptr;
       if (n == 0) {
@@ -54,13 +95,14 @@ int main() {
       if (!(u >= 0.)) bad << " draw-below-zero";
       if (!(u < 1.)) bad << " draw-not-below-one";
       if (!(-std::log(u) > 0.)) bad << " optical-depth-not-positive";
+      if (bits_of(ref.next()) != bits_of(u)) bad << " draw-is-not-the-ranlux-value";
       if (shadow && bits_of(shadow->get_uniform_random_double()) != bits_of(u))
         bad << shadow_what;
     } else if (w.size() == 2 && w[0] == "skip") {
       const uint64_t k = u64(w[1]);
       uint64_t h = 0;
       double lo = 1., hi = -1. / 281474976710656.0;
-      bool below = false, above = false, sh = false;
+      bool below = false, above = false, sh = false, notref = false;
       for (uint64_t i = 0; i < k; ++i) {
         const double u = g->get_uniform_random_double();
         h = h * 6364136223846793005ull + bits_of(u) + 1442695040888963407ull;
@@ -68,11 +110,13 @@ int main() {
         if (u > hi) hi = u;
         if (!(u >= 0.)) below = true;
         if (!(u < 1.)) above = true;
+        if (bits_of(ref.next()) != bits_of(u)) notref = true;
         if (shadow && bits_of(shadow->get_uniform_random_double()) != bits_of(u)) sh = true;
       }
       std::cout << "skip " << h << " " << showF(lo) << " " << showF(hi) << "\n";
       if (below) bad << " draw-below-zero";
       if (above) bad << " draw-not-below-one";
+      if (notref) bad << " draw-is-not-the-ranlux-value";
       if (sh) bad << shadow_what;
     } else if (w.size() == 1 && w[0] == "dump") {
       std::cout << "dump " << show_state(*g) << "\n";
